@@ -9,7 +9,9 @@ Bind : generated PELs with Private/User Header, Extended User Header, Failing MT
 """
 import random
 
-from .. import encode, genpel, pelrun
+import os
+
+from .. import encode, genpel, pelrun, seams
 
 ID = 'C02'
 LEVEL = 'model_checking'
@@ -41,10 +43,12 @@ BOUND32 = [0, 1, 0xFF, 0x100, 0xFFFF, 0x10000, 0x0FFFFFFF, 0x10000000, 0x7FFFFFF
            0x01020304, 0x00ABCDEF]
 
 
-def build(rng, k):
+def build(rng, k, tables=None):
     creator = chr(k % 128) if k % 3 == 0 else rng.choice(genpel.CREATORS)
     if creator in ('\x00',) and k % 6:
         creator = 'O'
+    if tables and k % 2:
+        creator = rng.choice(sorted(tables))             # creators that have a table of component names
     pel = genpel.gen_pel(rng, kinds=[], creator=creator)
     ph, uh = pel['ph'], pel['uh']
     ph['ver'], ph['sub'] = k % 256, (k * 7) % 256
@@ -73,14 +77,29 @@ def build(rng, k):
         secs.append(genpel.gen_lp(rng, ntargets=3, namelen=4))
     rng.shuffle(secs)
     pel['secs'] = secs
+    if tables and creator in tables:
+        ids = [[int(key[0:2], 16), int(key[2:4], 16)] for key in sorted(tables[creator])]
+        for h in [ph, uh] + secs:
+            if rng.random() < .6:
+                h['comp'] = list(rng.choice(ids))
     return pel
 
 
 def run_case(case):
     rng = random.Random(case['seed'])
     recs = []
+    # two cases in three: component names come from <creator>_component_ids.json files that the tool's own loader
+    # reads on first use - several creators with tables are decoded in one process
+    with_tables = (case['start'] // 50) % 3 != 0
+    if with_tables:
+        names = seams.install_comp_tables(os.path.join(seams.scratch_dir('c02'), 'pels-config'))
+        env = dict(names=names, registry=[])
+    else:
+        seams.no_comp_tables()
+        env = None
     for k in range(case['start'], case['start'] + case['n']):
-        recs.append(pelrun.observe(build(rng, k), 'C02', plugins=False, standalone=False))
+        recs.append(pelrun.observe(build(rng, k, seams.COMP_TABLES if with_tables else None), 'C02', plugins=False,
+                                   standalone=False, env=env))
     return recs
 
 
